@@ -28,23 +28,16 @@ func sortKeysOperator(d *dataTreeNavigator, context Context, expressionNode *Exp
 }
 
 func sortKeys(node *CandidateNode) {
-	keys := make([]string, len(node.Content)/2)
-	keyBucket := map[string]*CandidateNode{}
-	valueBucket := map[string]*CandidateNode{}
+	// sort the entries themselves: keys of different types can have the same text ({1: a, "1": b})
 	var contents = node.Content
-	for index := 0; index < len(contents); index = index + 2 {
-		key := contents[index]
-		value := contents[index+1]
-		keys[index/2] = key.Value
-		keyBucket[key.Value] = key
-		valueBucket[key.Value] = value
+	entries := make([][2]*CandidateNode, 0, len(contents)/2)
+	for index := 0; index+1 < len(contents); index = index + 2 {
+		entries = append(entries, [2]*CandidateNode{contents[index], contents[index+1]})
 	}
-	sort.Strings(keys)
-	sortedContent := make([]*CandidateNode, len(node.Content))
-	for index := 0; index < len(keys); index = index + 1 {
-		keyString := keys[index]
-		sortedContent[index*2] = keyBucket[keyString]
-		sortedContent[1+(index*2)] = valueBucket[keyString]
+	sort.SliceStable(entries, func(i, j int) bool { return entries[i][0].Value < entries[j][0].Value })
+	sortedContent := make([]*CandidateNode, 0, len(contents))
+	for _, entry := range entries {
+		sortedContent = append(sortedContent, entry[0], entry[1])
 	}
 
 	// re-arranging children, no need to update their parent
